@@ -965,27 +965,20 @@ Section GoTypes.
   Definition register1 (t : gtable) (k : dkey) (g : G) : gtable :=
     GTable (put_fwd k g (g_fwd t)) (put_bwd (snd (fst k)) g k (g_bwd t)).
 
-  Fixpoint register_list (t : gtable) (path : bytes) (kd : gkind) (i : nat) (n : nat) (gs : list G) : option (gtable * list G) :=
-    match n with
-    | O => Some (t, gs)
-    | S n' => match gs with
-              | g :: gs' => register_list (register1 t (path, kd, i) g) path kd (S i) n' gs'
-              | [] => None                       (* goTypes[idx]: index out of range *)
-              end
-    end.
-
-  (* registerGoTypes(fd, goTypes): structs, unions, exceptions; then enums; then typedefs *)
+  (* registerGoTypes(fd, goTypes): the idx-th struct-like (structs, unions, exceptions) gets
+     goTypes[idx], the idx-th enum goTypes[len(structList)+idx], the idx-th typedef
+     goTypes[len(structList)+len(enums)+idx]: the k-th key below gets the k-th type.  A list that
+     is too short makes the Go code panic (index out of range). *)
+  Definition keys_of (path : bytes) (kd : gkind) (n : nat) : list dkey := map (fun j => (path, kd, j)) (seq 0 n).
+  Definition all_keys (d : fdesc) : list dkey :=
+    keys_of (fdc_filepath d) GStruct (List.length (fdc_structs d) + List.length (fdc_unions d) + List.length (fdc_exceptions d)) ++
+    keys_of (fdc_filepath d) GEnum (List.length (fdc_enums d)) ++
+    keys_of (fdc_filepath d) GTypedef (List.length (fdc_typedefs d)).
+  Definition register_all (t : gtable) (l : list (dkey * G)) : gtable :=
+    fold_left (fun t kg => register1 t (fst kg) (snd kg)) l t.
   Definition go_type_table (t : gtable) (d : fdesc) (gs : list G) : option gtable :=
-    let ns := (List.length (fdc_structs d) + List.length (fdc_unions d) + List.length (fdc_exceptions d))%nat in
-    match register_list t (fdc_filepath d) GStruct 0 ns gs with
-    | Some (t1, gs1) =>
-        match register_list t1 (fdc_filepath d) GEnum 0 (List.length (fdc_enums d)) gs1 with
-        | Some (t2, gs2) =>
-            match register_list t2 (fdc_filepath d) GTypedef 0 (List.length (fdc_typedefs d)) gs2 with
-            | Some (t3, _) => Some t3
-            | None => None end
-        | None => None end
-    | None => None end.
+    if (List.length gs <? List.length (all_keys d))%nat then None
+    else Some (register_all t (combine (all_keys d) gs)).
 
   (* descriptor.GetGoType() and Get*DescriptorByGoType *)
   Definition go_type_of (t : gtable) (k : dkey) : option G :=
